@@ -32,9 +32,9 @@ def main():
     t.start()
     drv = None
     try:
-        drv = common.standard_build(chk, mod.GENS, mod.TARGETS, mod.THEOREMS, mod.PROP_FILES)
+        drv = common.standard_build(chk, mod.GENS, mod.TARGETS, mod.THEOREMS, mod.PROP_FILES, getattr(mod, 'SRC', None))
         if a.tier == 'thorough':
-            common.leanchecker(chk, mod.TARGETS)
+            common.leanchecker(chk, list(mod.TARGETS) + ([mod.SRC['module']] if getattr(mod, 'SRC', None) else []))
         if drv is not None:
             try:
                 mod.correspondence(chk, drv)
